@@ -83,6 +83,24 @@ func AllSmallLayouts() []LayoutDef {
 	return out
 }
 
+// ThoroughExtraLayouts: every small layout with k<=2 and every 12th three-level one (the thorough tier's
+// additional layouts; they are explored with the quick tier's per-layout settings).
+func ThoroughExtraLayouts() []LayoutDef {
+	var out []LayoutDef
+	n3 := 0
+	for _, l := range AllSmallLayouts() {
+		if len(l.Archs) <= 2 {
+			out = append(out, l)
+			continue
+		}
+		n3++
+		if n3%12 == 5 {
+			out = append(out, l)
+		}
+	}
+	return out
+}
+
 func gcd(a, b int64) int64 {
 	for b != 0 {
 		a, b = b, a%b
